@@ -36,6 +36,13 @@ theorem vec_invntt_sem (M : ModQ R) (v : PolyVec) (hv : ∀ a ∈ v, PolyOK Q a)
   obtain ⟨x, hx, lx, bx, he⟩ := invntt_sem M b hb.1 hb.2
   exact ⟨x, hx, ⟨lx, bx⟩, he⟩
 
+/-- tight output bound of the inverse transform on vectors -/
+theorem vec_invntt_tight (v r : PolyVec) (hv : ∀ a ∈ v, PolyOK Q a) (h : vec_invntt_tomont v = .ok r) :
+    ∀ x ∈ r, Bd 4211199 x := by
+  have := mapL_rel_ok poly_invntt_tomont (PolyOK Q) (fun _ x => Bd 4211199 x)
+    (fun a x ha hx => invntt_tight a x ha.1 ha.2 hx) v r hv h
+  exact All2.right (B := fun x => Bd 4211199 x) (fun _ _ h => h) this
+
 theorem vec_reduce_sem (M : ModQ R) (v : PolyVec) (hv : ∀ a ∈ v, PolyOK (2147483648 - 4194304) a) :
     ∃ r, vec_reduce v = .ok r ∧ All2 (fun a x => PolyOK 6283010 x ∧ (castL x : List R) = castL a) v r := by
   apply mapL_total poly_reduce (PolyOK (2147483648 - 4194304)) _ _ v hv
